@@ -186,7 +186,7 @@ PROPS = {
         ],
     },
     "C11": {
-        "lean_modules": ["DocsModel.Props.C11", "DocsModel.Props.C11One"],
+        "lean_modules": ["DocsModel.Props.C11", "DocsModel.Props.C11One", "DocsModel.Props.C11Net"],
         "trusted_base": COMMON_TRUST + [
             "the network and the tokio tasks are replaced by the model's scheduler: a connect/accept task is alive from its spawn until the live actor has processed its completion; requests are delivered or lost; the two ends of a session complete independently",
             "hook H4 (the live actor's coordination handlers called directly on real LiveActor instances with real endpoints; dials recorded instead of performed)",
